@@ -1023,3 +1023,19 @@ def gen_nameeq(rng, tier):
         keep = [p for p in pairs if p[0].startswith("s:") or p[1].startswith("s:")]
         pairs = keep[::3] + rng.sample(pairs, 150)
     return [["nameeq %s %s" % p for p in pairs[i:i + 50]] for i in range(0, len(pairs), 50)]
+
+
+def gen_selfref_big(rng, tier):
+    """a directory that lists itself at the start of a LARGE, otherwise empty section: the directory budget of the
+    consistency check and of the tree printer grows with the section (len/16), so only the depth limit keeps the
+    recursion shallow (round-6 change C03-r6-1 stopped counting the depth: the walk then nests len/16 deep)"""
+    cases = []
+    for size in ((1 << 20),) if tier == "quick" else ((1 << 20), (1 << 21), (1 << 22)):
+        for nent in (1, 2):
+            root = struct.pack("<IIHHHH", 0, 0, 0, 0, 0, nent)
+            for i in range(nent):
+                root += struct.pack("<II", i + 1, 0x80000000)          # id entry -> the directory at offset 0
+            sec = root + bytes(size - len(root))
+            pre = "res_raw 0 %s" % hx(sec)
+            cases.append([pre + " fsck", pre + " fmt"])
+    return cases
